@@ -77,11 +77,14 @@ BoundSound(f, q) ==
 
 QLists == UNION {{s \in [1 .. n -> Vars] : \A i, j \in 1 .. n : i # j => s[i] # s[j]} : n \in 0 .. NV}
 Grid == {0, 3, 8}
-WeightsFor(q) == {w \in [1 .. NV -> [1 .. 2 -> [1 .. 1 -> 0 .. 8]]] :
-                    \A v \in 1 .. NV : IF (v - 1) \in ToSetSeq(q) THEN w[v][1][1] \in Grid /\ w[v][2][1] \in Grid
-                                       ELSE w[v][1][1] \in {2, 4, 8} /\ w[v][2][1] = 8 - w[v][1][1]}
-BInit == /\ bf \in SUBSET Assign /\ bq \in QLists /\ bw \in WeightsFor(bq)
-BNext == UNCHANGED <<bf, bq, bw>>
+QPairs == {<< <<a>>, <<b>> >> : a \in Grid, b \in Grid}                       \* query variables: arbitrary weights of the grid
+FPairs == {<< <<a>>, <<8 - a>> >> : a \in {2, 4, 8}}                           \* the others: low + high = 1 (in eighths)
+WeightsFor(q) == {w \in [1 .. NV -> QPairs \cup FPairs] :
+                    \A v \in 1 .. NV : IF (v - 1) \in ToSetSeq(q) THEN w[v] \in QPairs ELSE w[v] \in FPairs}
+(* the lattice of functions is walked one assignment at a time so that TLC's workers share the invariant evaluations *)
+BInit == /\ bf = {} /\ bq \in QLists /\ bw \in WeightsFor(bq)
+BNext == /\ \E a \in Assign : bf' = bf \cup {a}
+         /\ UNCHANGED <<bq, bw>>
 BSpec == BInit /\ [][BNext]_<<bf, bq, bw>>
 OptimalInv == Optimal(bf, bq)
 BoundInv == BoundSound(bf, bq)
